@@ -117,8 +117,8 @@ static int do_op(xmp_context c, const struct op *o)
 	switch (o->kind) {
 	case 7:
 		memset(&ev, 0, sizeof(ev));
-		ev.fxt = 0x0f;		/* FX_SPEED: parameter >= 0x20 sets the tempo */
-		ev.fxp = o->arg;
+		ev.fxt = o->arg >> 8;	/* FX_SPEED (0x0f) or FX_IT_BPM (0x87): parameter >= 0x20 sets the tempo */
+		ev.fxp = o->arg & 0xff;
 		xmp_inject_event(c, 0, &ev);
 		return 0;
 	case 0:
@@ -180,6 +180,8 @@ static int run_case(const char *path, const unsigned char *data, long size, uint
 	int R, M, A, len, total;
 	long nonsilent = 0, clipped = 0, rowchg = 0, poschg = 0, samples_cmp = 0, opok = 0, reconf = 0;
 	long novoice = 0, clampedf = 0, tfroll = 0;
+	int bpmmin = 1 << 30;
+	double tfmax = 0;
 	int slow;
 	int lastrow = -1, lastpos = -1, maxloop = 0;
 	long fails_before = n_fail;
@@ -258,7 +260,7 @@ static int run_case(const char *path, const unsigned char *data, long size, uint
 		if (ops[i].kind == 6)
 			ops[i].arg = vrng_range(0, NTF - 1);
 		else if (ops[i].kind == 7)
-			ops[i].arg = vrng_range(0x20, 0xff);
+			ops[i].arg = ((vrng_chance(50) ? 0x0f : 0x87) << 8) | vrng_range(0x20, 0xff);
 		if (ops[i].kind == 0)
 			ops[i].arg = vrng_chance(90) ? vrng_range(0, len - 1) : vrng_range(-2, len + 2);
 		else if (ops[i].kind == 3)
@@ -274,7 +276,7 @@ static int run_case(const char *path, const unsigned char *data, long size, uint
 		nops++;
 		ops[nops].frame = vrng_range(2, 24);
 		ops[nops].kind = 7;
-		ops[nops].arg = 0x20;
+		ops[nops].arg = (0x87 << 8) | 0x20;	/* IT "set tempo" is not scaled by the tempo factor */
 		nops++;
 	}
 	printf("begin %s cseed=%llu len=%d chn=%d ops=%d\n", path, (unsigned long long)cseed, len, mi.mod->chn, nops);
@@ -358,6 +360,10 @@ static int run_case(const char *path, const unsigned char *data, long size, uint
 		 * which some context's tick size was clamped by libxmp_mixer_prepare */
 		if (g[4]->p.virt.virt_used == 0)
 			novoice++;
+		if (t[0].bpm < bpmmin)
+			bpmmin = t[0].bpm;
+		if (g[0]->m.time_factor > tfmax)
+			tfmax = g[0]->m.time_factor;
 		for (i = 0; i < NCTX; i++) {
 			if (libxmp_mixer_get_ticksize(g[i]->s.freq, g[i]->m.time_factor, g[i]->m.rrate, g[i]->p.bpm) != g[i]->s.ticksize) {
 				clampedf++;
@@ -465,8 +471,8 @@ static int run_case(const char *path, const unsigned char *data, long size, uint
 	}
 	for (i = 0; i < NCTX; i++)
 		xmp_end_player(c[i]);
-	printf("stat frames=%d rowchg=%ld poschg=%ld loops=%d nonsilent=%ld clipped=%ld samples=%ld opok=%ld reconf=%ld novoice=%ld clampticks=%ld tfroll=%ld slow=%d fails=%ld\n",
-	       played, rowchg, poschg, maxloop, nonsilent, clipped, samples_cmp, opok, reconf, novoice, clampedf, tfroll, slow,
+	printf("stat frames=%d rowchg=%ld poschg=%ld loops=%d nonsilent=%ld clipped=%ld samples=%ld opok=%ld reconf=%ld novoice=%ld clampticks=%ld tfroll=%ld slow=%d bpmmin=%d tfmax=%d fails=%ld\n",
+	       played, rowchg, poschg, maxloop, nonsilent, clipped, samples_cmp, opok, reconf, novoice, clampedf, tfroll, slow, bpmmin, (int)tfmax,
 	       n_fail - fails_before);
     out:
 	printf("end\n");
